@@ -1838,6 +1838,12 @@ func replayMain(c *harness.Check) {
 	if err != nil {
 		harness.Fatal("%v", err)
 	}
+	if sc, _ := rec["scenario"].(string); sc == "relaybatch" {
+		if harness.ReplayExploration(c) {
+			os.Exit(1)
+		}
+		os.Exit(0)
+	}
 	tier, _ := rec["tier"].(string)
 	if part, _ := rec["part"].(string); part == "C-live" {
 		var inst liveInst
@@ -1894,8 +1900,12 @@ func main() {
 	if !flag.Parsed() {
 		flag.Parse()
 	}
+	registerBatch()
 	switch w := flag.Lookup("worker").Value.String(); w {
 	case "":
+	case "relaybatch":
+		harness.WorkerMain()
+		return
 	case "c05live":
 		var only *liveInst
 		if sh := flag.Lookup("shard").Value.String(); strings.HasPrefix(sh, "{") {
@@ -1958,6 +1968,7 @@ func main() {
 		liveOuts, liveCrashes = runLiveAll(c.Tier)
 	}()
 	wg.Wait()
+	runBatchPart(c)
 	if len(liveOuts) > 0 {
 		o := liveOuts[len(liveOuts)/2]
 		c.Sample(map[string]any{"unit": o.Inst.String(), "cases": o.Cases, "outcomes": o.Outcomes, "result": "every boundary payload either arrived unchanged on the far side of the running relay or was dropped exactly when the reference says it cannot fit"})
@@ -2080,7 +2091,7 @@ func main() {
 		"families":      famNames,
 		"relay_layout":  "min: only the pair's client is configured; max: every client codec of the tier is configured (MaxHeadroom over their Info().PackerHeadroom, as service.Config.Manager does)",
 	}
-	c.Rule = "one case = one (unit, address kind, port, payload length, padding answer) tuple executed on the real code; a unit fixes part, codec(s), MTU(s), address family of the peer, padding policy, payloadStart mode / relay layout, incoming padding. All tuples are distinct by construction (states = cases); distinct_nontrivial counts (unit, address kind, port, outcome) classes; transitions = PackInPlace/UnpackInPlace/SessionInfo/NewUnpacker calls on the real code. Part C: one case = one (relay instance {server, client, MTUs, batch mode}, direction, address kind, port, boundary payload length) sent through the running relay."
+	c.Rule = "one case = one (unit, address kind, port, payload length, padding answer) tuple executed on the real code; a unit fixes part, codec(s), MTU(s), address family of the peer, padding policy, payloadStart mode / relay layout, incoming padding. All tuples are distinct by construction (states = cases); distinct_nontrivial counts (unit, address kind, port, outcome) classes; transitions = PackInPlace/UnpackInPlace/SessionInfo/NewUnpacker calls on the real code. Part D: one case = one interleaving (delay-bounded, iterative) of the real relay with a refused datagram directly followed by one that fits. Part C: one case = one (relay instance {server, client, MTUs, batch mode}, direction, address kind, port, boundary payload length) sent through the running relay."
 	c.Assumptions = []string{
 		"uplink relay buffer layout (front headroom, receive size, buffer size) and server objects are read from the service returned by the real ServerConfig.UDPRelay through overlay_static/service/c05_export.go; client sessions come from the real ClientConfig.UDPClient + NewSession (SOCKS5: the real newSession without the TCP control connection)",
 		"downlink relay buffer = UDPRelayHeadroom(serverPacker.Headroom, clientUnpacker.Headroom).Front + clientSession.MaxPacketSize + .Rear and maxClientPacketSize = MaxPacketSizeForAddr(server MTU, client address): composed in the harness from the real functions exactly as the four relayNatConnToServerConn* loops do inline; those loops themselves (receive offsets, downlink buffer, maxClientPacketSize) are executed by part C on loopback sockets with boundary payload lengths, in both batch modes",
@@ -2088,6 +2099,7 @@ func main() {
 		"a packet longer than the receive size is truncated by the kernel and dropped by the relay (MSG_TRUNC); such cases are counted, not judged",
 		"clients with 2..3 identity headers are checked against reference SIP022 relays (peel one header each, written in the harness) in front of the real multi-user server",
 		"not demanded: preservation of the IPv4-mapped form of an address (the SOCKS address format has no such form; the code documents the conversion): addresses are compared after Unmap; that padding is actually applied when the policy says so; contents of bytes in front of the payload (PackInPlace may use all of b[:payloadStart]; ss2022 pads into whatever room there is, beyond its declared 900-byte padding headroom) and inside the declared rear headroom",
+		"part D (scheduler-controlled): real relay service on loopback sockets with scheduler-mediated readiness; a refused datagram directly followed by one that fits, in every receive-batch split the delay bound allows; outgoing client direct only",
 		"out of alphabet: direct client with domain targets (DNS), direct server with tunnelUDPTargetOnly (C18), transparent proxy relay, MTU > 65575 except edges in thorough",
 	}
 	c.Finish()
